@@ -7,7 +7,7 @@ CONSTANTS
   Apps = {"a1", "a2"}
   R = 4
   OOOCap = 2
-  Acts = {"NewAppender", "Append", "Commit", "Rollback", "Delete", "Compact", "CompactOOO", "Reopen", "Mmap", "CleanTombstones"}
+  Acts = {"NewAppender", "Append", "Commit", "Rollback", "Delete", "Compact", "CompactOOO", "Reopen", "Mmap", "CleanTombstones", "CompactStale"}
   Apis = {"v1", "v2"}
   Rej = {FALSE}
   DelLo = {0, 3, 6, 9}
